@@ -7,10 +7,13 @@ def run(ctx):
     from pyvc.source import Repo
 
     K.verify_all(ctx, Repo(), "C12")
+    from contracts import c12_newick as NW
+
+    NW.verify_all(ctx, Repo(), "C12")
     ctx.trust("pandas (DataFrame, sort_values, explode, groupby, concat, to_csv) and the clustered branch of get_labels_table / get_clone_table are outside the contracts (bounded stand-in only)")
     ctx.assume("A-NAMES: data point names are unique and data[i].idx == i (established by the loader, C17)")
     ctx.extra["explanation"] = ("Deductive (any number of data points, any labelling): the unclustered branch of get_labels_table hands pandas one record (name, clone) per labelled point and one "
-                                "(name, outlier node) record per input point whose name is not among the labelled ones, nothing else, sorted by clone and mutation. The rest of the tables is produced by pandas pipelines (explode / groupby / concat) whose semantics are outside the engine. "
+                                "(name, outlier node) record per input point whose name is not among the labelled ones, nothing else, sorted by clone and mutation. The Newick writer: every tree edge records the child's parent, every finished vertex produces name or (children)name and hands it to its parent exactly once, the root's string + ';' is returned. The rest of the tables is produced by pandas pipelines (explode / groupby / concat) whose semantics are outside the engine. "
                                 "Bounded stand-in: the three real commands on traces holding every tree over <= 3 data points (including all-outlier trees), clustered and "
                                 "unclustered, 1-2 samples; every output table and Newick tree is parsed back and checked against the property clause by clause.")
     from bounded import commands as BC
